@@ -243,14 +243,16 @@ def can_be_plain_string(node: mparser.StringNode) -> bool:
     return node.is_multiline and not any(x in node.value for x in ['\n', "'", '\\'])
 
 
-def flattened_files_arguments(node: mparser.FunctionNode) -> mparser.ArgumentNode:
-    '''The arguments a function call has once files([...]) is written files(...)
+def flattened_files_arguments(node: mparser.FunctionNode) -> T.List[mparser.ArgumentNode]:
+    '''The argument lists files([...]) -> files(...) goes through, from the
+    arguments of the call as written to the arguments it has afterwards
     (see TrimWhitespaces.visit_FunctionNode, which runs after the enclosing
     argument list has been examined)'''
-    args = node.args
+    chain = [node.args]
     if node.func_name.value != 'files':
-        return args
-    while len(args.arguments) == 1 and not args.kwargs:
+        return chain
+    while len(chain[-1].arguments) == 1 and not chain[-1].kwargs:
+        args = chain[-1]
         arg = args.arguments[0]
         if not isinstance(arg, mparser.ArrayNode):
             break
@@ -261,8 +263,8 @@ def flattened_files_arguments(node: mparser.FunctionNode) -> mparser.ArgumentNod
             dropped.append(arg.args)
         if any(n.whitespaces and '#' in n.whitespaces.value for n in dropped):
             break
-        args = arg.args
-    return args
+        chain.append(arg.args)
+    return chain
 
 
 class MultilineArgumentDetector(FullAstVisitor):
@@ -283,10 +285,9 @@ class MultilineArgumentDetector(FullAstVisitor):
                 self.is_multiline = True
 
     def visit_FunctionNode(self, node: mparser.FunctionNode) -> None:
-        self.function_arguments.add(id(node.args))
         # The arguments of the array of files([...]) are going to be the
-        # arguments of the function.
-        self.function_arguments.add(id(flattened_files_arguments(node)))
+        # arguments of the function, and those of the arrays around it go away.
+        self.function_arguments.update(id(args) for args in flattened_files_arguments(node))
         super().visit_FunctionNode(node)
 
     def visit_MethodNode(self, node: mparser.MethodNode) -> None:
